@@ -136,7 +136,7 @@ def rec_generate_sets(prior_bins: BinsArray, best_partition_so_far: BinsArray, i
             new_bin1 = rec_generate_sets(prior_bins, best_partition_so_far, bin1items, total_numbins, current_numbins/2, trees, binner)
             new_bin2 = rec_generate_sets(prior_bins, best_partition_so_far, bin2items, total_numbins, current_numbins/2, trees, binner)
 
-            combined_sums = np.append(binner.sums(new_bin1), binner.sums(new_bin2))
+            combined_sums = np.concatenate((binner.sums(new_bin1), binner.sums(new_bin2), binner.sums(prior_bins)))   # the bins fixed so far count too
             diff = max(combined_sums) - min(combined_sums)
             if diff < best_difference_so_far:
                 best_partition_so_far = binner.concatenate_bins(new_bin1, new_bin2)
